@@ -43,7 +43,7 @@ func writerFuncs(P *Program) []*ssa.Function {
 
 func init() {
 	register("C09",
-		"The encoder's state is two fields (count, wb) touched by two methods; the rules read the complete transition relation off the source: Encode appends exactly one encoding and counts it on every path before testing the size (ENC-1), flushes exactly on Len() >= approxBlockSize (ENC-2); Flush writes a block exactly when count > 0 (ENC-3) with (w, count, wb.Bytes()) (ENC-4), resets count and buffer exactly on the success edge (ENC-5); nothing else in the module touches that state (ENC-6); the buffer is append-only between resets (WB-APPEND); each block is varint(count) varint(len(compressed)) compressed sync (OD-BLOCK). "+
+		"The encoder's state is two fields (count, wb) touched by two methods; the rules read the complete transition relation off the source: Encode appends exactly one encoding and counts it on every path before testing the size (ENC-1), flushes exactly on Len() >= approxBlockSize (ENC-2); Flush writes a block exactly when count > 0 (ENC-3) with (w, count, wb.Bytes()) (ENC-4), resets count and buffer exactly on the success edge (ENC-5); nothing else in the module touches that state (ENC-6); the buffer is append-only between resets (WB-APPEND); each block is varint(count) varint(len(compressed)) compressed sync (OD-BLOCK); the compressor whose output buffer becomes the payload belongs to this writer alone — created per file writer, never in package state (LK-OWN) — and nothing on the writing path uses package-level state (ENC-PURE), so the payload written is the one compressed from this writer's records. "+
 			"This is the induction step of C09 for every call history; payload correctness is C02's and is not decided here.",
 		func(c *Ctx) {
 			ruleENC(c)
@@ -51,6 +51,9 @@ func init() {
 			ruleODBlock(c)
 			ruleCPFresh(c, findReadFile(c.P))
 			ruleENCSize(c)
+			ruleLKOwn(c)
+			ruleEncPure(c)
+			ruleCRCCompress(c, findReadFile(c.P))
 			c.Note("not decided: contents of the encodings appended by codec.Write (C01/C02); determinism of the compressors")
 		})
 
